@@ -31,6 +31,7 @@ def _mkfn(name, params, ret):
 class Gen:
     def __init__(self, rng, N):
         self.rng, self.N, self.k = rng, N, 0
+        self.cons, self.prods = {}, {}       # per real node: leaf consumers of the value / leaf producers per output, (mapping levels, type)
         self.theme = rng.choice(["int", "int", "str"])      # most annotations agree, so that accepted edges are common
 
     def pick(self, options):
@@ -55,6 +56,8 @@ class Gen:
         params = {pname: pt, own: base.INT}
         real = FunctionNode(_mkfn(nm, params, rt), name=nm, output_name=out)
         term = f"(TLeaf {c_pos(self.N(nm))} {self.names(real.inputs)} {self.names(real.outputs)} {self.cty(params)} {self.cty({out: rt})})"
+        self.cons[id(real)] = [(0, pt)]
+        self.prods[id(real)] = {out: [(0, rt)]}
         return real, term, [out]
 
     def branches(self, pname):
@@ -72,6 +75,8 @@ class Gen:
             pt = TY[self.pick(["int", "str", "float", None])]
             rt = TY[self.pick(["int", "str", None])]
             real = FunctionNode(_mkfn(b, {pname: pt}, rt), name=b, output_name=w)
+            self.cons[id(real)] = [(0, pt)]
+            self.prods[id(real)] = {w: [(0, rt)]}
             out.append((real, f"(TLeaf {c_pos(self.N(b))} {self.names(real.inputs)} {self.names(real.outputs)} {self.cty({pname: pt})} {self.cty({w: rt})})"))
         order = [0, 1, 2]
         self.rng.shuffle(order)
@@ -118,10 +123,47 @@ class Gen:
                 mo = [pname]
             except Exception:  # noqa: BLE001 - e.g. interrupts; not generated here
                 mo = []
+        # SPEC bookkeeping: the leaves behind this boundary, in inner node order
+        k_in = 1 if mo else 0
+        self.cons[id(node)] = [(k_in + k, t) for c in children for (k, t) in self.cons.get(id(c[0]), [])]
+        inv = {v: k for k, v in oren.items()}
+        pr = {}
+        for c in children:
+            for o, lst in self.prods.get(id(c[0]), {}).items():
+                pr.setdefault(inv.get(o, o), []).extend((k_in + k, t) for (k, t) in lst)
+        self.prods[id(node)] = pr
         dren = lambda d: c_list([c_pair(c_pos(self.N(a)), c_pos(self.N(b))) for a, b in d.items()])  # noqa: E731
         term = (f"(TGraph {c_pos(self.N(gname))} {self.names(node.inputs)} {self.names(node.outputs)} {c_list([c[1] for c in children])} "
                 f"{dren(iren)} {dren(oren)} {self.names(mo)})")
         return node, term, outs_outer
+
+
+def spec_verdict(prod_leaves, cons_leaves):
+    """accepted iff every (leaf producer type, leaf consumer type) pair - each wrapped in list[] once per mapping level above the
+    leaf - is annotated on both sides and compatible (theorem C19_boundary_leaf_pairs); judged with the real is_type_compatible,
+    which the type-universe stream of this check compares with Typing.compat."""
+    from hypergraph._typing import is_type_compatible
+
+    def wrap_in(k, t):
+        if t is None:
+            return None
+        py = base.py_of(t)
+        for _ in range(k):
+            py = list[py]
+        return py
+
+    def wrap_out(k, t):
+        py = None if t is None else base.py_of(t)
+        for _ in range(k):
+            py = list if py is None else list[py]
+        return py
+    for (kp, tp) in prod_leaves:
+        a = wrap_out(kp, tp)
+        for (kc, tc) in cons_leaves:
+            b = wrap_in(kc, tc)
+            if a is None or b is None or not is_type_compatible(a, b):
+                return False
+    return True
 
 
 def c_otys(N, tys):
@@ -186,6 +228,10 @@ def boundary_model_part(ctx):
                 stats["edges"] += 1
                 stats["accepted" if verdict else "rejected"] += 1
                 batch.add(i, 142, "Bool.eqb", f"edge_ok {LIST} SUB ANYID {pterm} $t {c_pos(N('v'))}", c_bool(verdict))
+                want = spec_verdict([(0, pt)], G.cons[id(node)])
+                if want != verdict:
+                    ctx.violation("oracle", f"strict_types: Graph([prod() -> v: {pt}, <nested graph>]) was {'accepted' if verdict else 'rejected'}, but the leaf consumers of v behind "
+                                  f"the boundary are (mapping levels, type) {G.cons[id(node)]}: every pair compatible = {want}", case=case)
         if node.outputs:
             o = rng.choice(list(node.outputs))
             ct = TY[G.pick(["int", "str", "li", None])]
@@ -205,6 +251,10 @@ def boundary_model_part(ctx):
                 stats["edges"] += 1
                 stats["accepted" if verdict else "rejected"] += 1
                 batch.add(i, 143, "Bool.eqb", f"edge_ok {LIST} SUB ANYID $t {cterm} {c_pos(N(o))}", c_bool(verdict))
+                want = spec_verdict(G.prods[id(node)].get(o, []), [(0, ct)])
+                if want != verdict:
+                    ctx.violation("oracle", f"strict_types: Graph([<nested graph>, cons({o}: {ct})]) was {'accepted' if verdict else 'rejected'}, but the leaf producers of {o} behind "
+                                  f"the boundary are (mapping levels, type) {G.prods[id(node)].get(o, [])}: every pair compatible = {want}", case=case)
         i += 1
     res = batch.run()
     if res["error"]:
